@@ -9,6 +9,7 @@ package main
 // library (it is C16's subject); only the preimage layout is judged here.
 
 import (
+	"bytes"
 	"encoding/hex"
 	"fmt"
 	"math/rand/v2"
@@ -19,6 +20,7 @@ import (
 	"go.sia.tech/core/types"
 	"verif/internal/harness"
 	"verif/internal/valgen"
+	"verif/internal/wirereg"
 )
 
 func must(b []byte, err error) []byte {
@@ -267,3 +269,50 @@ func encodeStd(v types.EncoderTo) []byte {
 type encBuf struct{ b []byte }
 
 func (e *encBuf) Write(p []byte) (int, error) { e.b = append(e.b, p...); return len(p), nil }
+
+// checkHighLeafIndex is a directed case: the generator keeps accumulators
+// below 2^62 leaves (larger ones are not reachable consensus states), so the
+// half of the uint64 leaf-index space above 2^63 is probed here with one
+// minimal, fully valid value: two sibling elements at leaf indices 2^63 and
+// 2^63+1 of a forest with 2^63+2 leaves. Positive control: the same shape at 2^62.
+func checkHighLeafIndex(b *harness.B, rng *rand.Rand) {
+	e, _ := wirereg.ByName("types.V2TransactionsMultiproof")
+	for _, base := range []uint64{1 << 62, 1 << 63} {
+		txns := types.V2TransactionsMultiproof{{SiacoinInputs: []types.V2SiacoinInput{
+			{Parent: types.SiacoinElement{ID: types.SiacoinOutputID{1}}, SatisfiedPolicy: types.SatisfiedPolicy{Policy: types.AnyoneCanSpend()}},
+			{Parent: types.SiacoinElement{ID: types.SiacoinOutputID{2}}, SatisfiedPolicy: types.SatisfiedPolicy{Policy: types.AnyoneCanSpend()}},
+		}}}
+		valgen.AssignProofs(rng, txns, base+2, []uint64{base, base + 1})
+		b.Eval(1)
+		var enc []byte
+		var dec any
+		var err error
+		p := safely(func() {
+			enc = e.Encode(&txns)
+			dec, err = e.Decode(enc)
+		})
+		want := valgen.CopyAny(&txns)
+		valgen.Canon(want)
+		diff := ""
+		if p == "" && err == nil {
+			valgen.Canon(dec)
+			diff = valgen.Diff(want, dec)
+		}
+		ref, _ := layoutEncode("V2TransactionsMultiproof", &txns)
+		bad := p != "" || err != nil || diff != "" || !bytes.Equal(ref, enc)
+		w := map[string]any{"leaf_indices": []uint64{base, base + 1}, "num_leaves": base + 2, "encoding_hex": hex.EncodeToString(enc), "reference_encoding_hex": hex.EncodeToString(ref), "panic": p, "decode_error": fmt.Sprint(err), "diff": diff}
+		if base == 1<<62 {
+			if bad {
+				b.Violate("C11/roundtrip/multiproof/sibling-pair", "two sibling elements at leaf indices 2^62, 2^62+1 do not round-trip in multiproof form", w)
+			} else {
+				b.Count("multiproof_directed_control_ok", 1)
+			}
+			continue
+		}
+		if bad {
+			b.Violate("C11/roundtrip/multiproof/leaf-index>=2^63", fmt.Sprintf("two sibling elements at leaf indices 2^63, 2^63+1 (forest of 2^63+2 leaves, proofs valid) do not round-trip in multiproof form: library encoding is %d bytes, reference %d bytes; panic=%q err=%v diff=%s", len(enc), len(ref), p, err, diff), w)
+		} else {
+			b.Count("multiproof_high_leaf_index_ok", 1)
+		}
+	}
+}
